@@ -468,8 +468,11 @@ def finish(H, hname, tier, seed, configs, results, t0, extra_cov=None, extra_ass
               "floats are modelled as reals (no rounding, overflow, NaN/inf of symbolic values)",
               "numpy itself, pint's label parsing and z3 are trusted"],
           "wall_s": round(wall, 2), "violations": nviol}
-    os.makedirs(os.path.join(ROOT, "evidence"), exist_ok=True)
-    json.dump(ev, open(os.path.join(ROOT, "evidence", f"{prop}.json"), "w"), indent=1)
+    # (VERIF_EVIDENCE_DIR: used by the seed / refactoring evaluations, which run against a scratch copy of the repository
+    # and must not overwrite the evidence of the runs against /repo)
+    evdir = os.environ.get("VERIF_EVIDENCE_DIR") or os.path.join(ROOT, "evidence")
+    os.makedirs(evdir, exist_ok=True)
+    json.dump(ev, open(os.path.join(evdir, f"{prop}.json"), "w"), indent=1)
     for ln in lines:
         print(ln)
     print(f"[{prop} {tier}] configs={len(configs)} paths={agg['paths']} cut={agg['aborted']} obligations={agg['obligations']} "
